@@ -90,7 +90,9 @@ Apply(e) ==
        [] e.ev = "Query" -> Query(s)
        [] e.ev = "Tick" -> Tick(s)
        [] e.ev = "ExtraKey" -> ExtraKey(s)
-       [] e.ev = "SMPStart" -> SMPStart(s, e.s, e.q, e.run)
+       \* a question too long for a TLV: the call is refused and nothing else happens
+       [] e.ev = "SMPStart" -> IF e.big THEN [s |-> [s EXCEPT !.smp = IF @ = "nil" THEN "expect1" ELSE @], out |-> <<>>, plain |-> NoText, err |-> TRUE, evs |-> <<>>]
+                               ELSE SMPStart(s, e.s, e.q, e.run)
        [] e.ev = "SMPAnswer" -> SMPAnswer(s, e.s)
        [] e.ev = "SMPAbort" -> SMPAbort(s)
 
